@@ -137,6 +137,7 @@ func c13(c *ctx) {
 			continue
 		}
 		ins := append(append([]string{}, s.samples...), hostileInputs(r, s.samples, nin, s.name != "java" && s.name != "c", tierN(c, 40000, 200000))...)
+		ins = append(ins, derivedInputs(r, s.grammar(c.env.Repo), s.samples, nin/2)...)
 		for k, in := range ins {
 			reqs = append(reqs, corpus.Req{Pkg: j.Pkg, In: []byte(in), Memo: k%5 != 0, Size: (k % 3) * 8})
 			rks = append(rks, rk{s, in})
